@@ -1,0 +1,99 @@
+//go:build verif
+
+// Contracts for the verification machinery in /verif (govc). Comment-only.
+
+package container
+
+// ---- abstract view: total number of bytes held ---------------------------
+// sumRow adds the lengths of the slices at absolute row positions [lo, hi).
+//@ spec sumRow(r ~[]byte, lo int, hi int) int = hi <= lo ? 0 : sumRow(r, lo, hi - 1) + len(r[hi-1])
+//@ spec clen(c *Container) int = sumRow(elems(c.compartments), soff(c.compartments) + c.offset, soff(c.compartments) + len(c.compartments))
+//@ spec pos(x int) bool = 0 <= x && x <= 1<<50
+// representation invariant
+//@ spec wf(c *Container) bool = c != nil && 0 <= c.offset && c.offset <= len(c.compartments) && (len(c.compartments) > 0 ==> c.offset < len(c.compartments))
+
+// rows that agree (possibly shifted) on the lengths of their entries have the same sum
+//@ lemma L-sum-shift by induction on h1 from lo1 generalizing h2: forall r1 ~[]byte, r2 ~[]byte, lo1 int, lo2 int, h1 int, h2 int :: pos(lo1) && pos(lo2) && pos(h1) && pos(h2) && lo1 <= h1 && h1 - lo1 == h2 - lo2 && (forall k int :: lo1 <= k && k < h1 ==> len(r1[k]) == len(r2[k + (lo2 - lo1)])) ==> sumRow(r1, lo1, h1) == sumRow(r2, lo2, h2)
+
+//@ func New
+//@   ensures r0 != nil && fresh(r0) && wf(r0) && r0.compartments == data && r0.offset == 0
+
+//@ func NewContainer
+//@   ensures r0 != nil && fresh(r0) && wf(r0) && r0.compartments == data && r0.offset == 0
+
+//@ func (*Container).Length
+//@   requires wf(c)
+//@   ensures length == clen(c)
+//@   loop 0 invariant c.offset <= i && i <= len(c.compartments)
+//@   loop 0 invariant length == sumRow(elems(c.compartments), soff(c.compartments) + c.offset, soff(c.compartments) + i)
+//@   loop 0 decreases len(c.compartments) - i
+
+//@ func (*Container).HoldsData
+//@   requires wf(c)
+//@   loop 0 invariant c.offset <= i && i <= len(c.compartments)
+//@   loop 0 decreases len(c.compartments) - i
+
+//@ func (*Container).checkOffset
+//@   requires c != nil && 0 <= c.offset
+//@   modifies c.offset
+//@   ensures wf(c)
+//@   ensures old(c.offset) < len(c.compartments) ==> c.offset == old(c.offset)
+
+// top-index unfolding of sumRow, for explicit use
+//@ lemma L-sum-top: forall r ~[]byte, lo int, hi int :: lo < hi ==> sumRow(r, lo, hi) == sumRow(r, lo, hi - 1) + len(r[hi-1])
+
+//@ func (*Container).Append
+//@   requires wf(c)
+//@   modifies c.compartments, elems(c.compartments)
+//@   at return assert len(c.compartments) == old(len(c.compartments)) + 1 && c.offset == old(c.offset)
+//@   at return assert elems(c.compartments)[soff(c.compartments) + old(len(c.compartments))] == data
+//@   at return assert forall k int :: soff(c.compartments) + c.offset <= k && k < soff(c.compartments) + old(len(c.compartments)) ==> len(elems(c.compartments)[k]) == len(old(elems(c.compartments))[k + (old(soff(c.compartments) + c.offset) - (soff(c.compartments) + c.offset))])
+//@   at return use L-sum-shift(elems(c.compartments), old(elems(c.compartments)), soff(c.compartments) + c.offset, old(soff(c.compartments) + c.offset), soff(c.compartments) + old(len(c.compartments)), old(soff(c.compartments) + len(c.compartments)))
+//@   at return assert sumRow(elems(c.compartments), soff(c.compartments) + c.offset, soff(c.compartments) + old(len(c.compartments))) == old(clen(c))
+//@   at return use L-sum-top(elems(c.compartments), soff(c.compartments) + c.offset, soff(c.compartments) + old(len(c.compartments)) + 1)
+//@   at return assert sumRow(elems(c.compartments), soff(c.compartments) + c.offset, soff(c.compartments) + old(len(c.compartments)) + 1) == old(clen(c)) + len(data)
+//@   ensures wf(c) && c.offset == old(c.offset) && len(c.compartments) == old(len(c.compartments)) + 1
+//@   ensures clen(c) == old(clen(c)) + len(data)
+
+// ---- structural operations (representation invariant, exact element placement)
+
+//@ func (*Container).renewCompartments
+//@   requires c != nil && 0 <= c.offset && c.offset <= len(c.compartments)
+//@   modifies c.compartments, c.offset
+//@   ensures c.offset == 4 && len(c.compartments) == old(len(c.compartments) - c.offset) + 5 && fresh(c.compartments) && soff(c.compartments) == 0
+//@   ensures forall j int :: 0 <= j && j < old(len(c.compartments) - c.offset) ==> elems(c.compartments)[5 + j] == old(elems(c.compartments)[soff(c.compartments) + c.offset + j])
+//@   ensures forall j int :: 0 <= j && j < 5 ==> elems(c.compartments)[j] == nil
+
+//@ func (*Container).Prepend
+//@   requires wf(c)
+//@   modifies c.compartments, c.offset, elems(c.compartments)
+//@   ensures wf(c) && elems(c.compartments)[soff(c.compartments) + c.offset] == data
+
+//@ func (*Container).Replace
+//@   requires wf(c)
+//@   modifies c.compartments, c.offset
+//@   ensures wf(c) && len(c.compartments) - c.offset == 1 && elems(c.compartments)[soff(c.compartments) + c.offset] == data
+
+//@ func (*Container).Peek
+//@   requires wf(c)
+//@   ensures n <= 0 ==> r0 == nil
+//@   ensures n > 0 ==> len(r0) <= n
+//@   ensures elems(c.compartments) == old(elems(c.compartments))
+//@   loop 0 invariant c.offset <= i && i <= len(c.compartments)
+//@   loop 0 invariant 0 <= n && n <= old(n) && copySlice == slice[n:] && len(slice) == old(n) && cap(slice) == old(n) && fresh(slice)
+//@   loop 0 invariant elems(c.compartments) == old(elems(c.compartments))
+//@   loop 0 decreases len(c.compartments) - i
+
+//@ func (*Container).skip
+//@   requires wf(c) && n >= 0
+//@   modifies c.offset, elems(c.compartments)
+//@   ensures wf(c)
+//@   loop 0 invariant old(c.offset) <= i && i <= len(c.compartments) && n >= 0 && 0 <= c.offset && c.offset <= i
+//@   loop 0 decreases len(c.compartments) - i
+
+//@ func (*Container).Get
+//@   requires wf(c)
+//@   modifies c.offset, elems(c.compartments)
+//@   ensures wf(c)
+//@   ensures r1 == nil ==> len(r0) == n
+//@   ensures n < 0 ==> r1 != nil
